@@ -195,6 +195,25 @@ def sections(line):
     return out
 
 
+# sections whose float tokens are results of sums and differences of the other tokens of the same section (money
+# amounts, valuations) or of 1 + rate: binary64 error scales with the operands, not with a result that may cancel to
+# nearly zero, so the tolerance is relative to the largest magnitude in the section (at least the floor given here)
+SECTION_SCALE = {"V": 0.0, "G": 0.0, "TV": 0.0, "LV": 0.0, "H": 0.0, "P": 0.0, "HP": 0.0, "T": 0.0, "XL": 0.0,
+                 "R": 1.0, "BW": 1.0, "RET": 1.0, "CF": 0.0, "VAL": 0.0, "NB": 0.0, "NP": 0.0, "FEE": 0.0}
+
+
+def section_scale(k, a, b):
+    if k not in SECTION_SCALE:
+        return None
+    m = SECTION_SCALE[k]
+    for t in list(a) + list(b):
+        if FLOAT_TOK.match(t):
+            x = abs(fdec(t))
+            if x == x and x != float("inf"):
+                m = max(m, x)
+    return m
+
+
 def line_eq(impl, model, tags, rtol, canon=None):
     """compare two output lines on the sections in `tags` (None = all). returns None or a reason"""
     si, sm = sections(impl), sections(model)
@@ -212,8 +231,11 @@ def line_eq(impl, model, tags, rtol, canon=None):
         a, b = si[k], sm[k]
         if len(a) != len(b):
             return f"section {k}: {len(a)} vs {len(b)} tokens"
+        sc = section_scale(k, a, b)
         for i, (x, y) in enumerate(zip(a, b)):
             if not tok_eq(x, y, rtol):
+                if sc is not None and FLOAT_TOK.match(x) and FLOAT_TOK.match(y) and abs(fdec(x) - fdec(y)) <= rtol * sc:
+                    continue
                 return f"section {k} token {i}: impl {x} model {y}"
     return None
 
@@ -336,10 +358,16 @@ def examine(prop, stream, annot, impl, model, origin, collect):
                                             "line-count", f"{len(a)} ops, {len(i)} impl lines, {len(m)} model lines", origin=origin))
             continue
         # (B) monitors on the implementation's own trace
-        for (step, clause, detail) in prop.monitor(stream, a, i):
-            collect["fails"].append(Failure("monitor", stream, list(o), step, clause, detail,
-                                            impl=i[step] if step < len(i) else None, origin=origin))
-            break
+        try:
+            for (step, clause, detail) in prop.monitor(stream, a, i):
+                collect["fails"].append(Failure("monitor", stream, list(o), step, clause, detail,
+                                                impl=i[step] if step < len(i) else None, origin=origin))
+                break
+        except Exception as e:      # a trace the monitor cannot read (changed output shape): reported, never swallowed
+            import traceback
+            tb = traceback.format_exc().strip().split("\n")
+            collect["fails"].append(Failure("correspondence", stream, list(o), 0, "monitor-cannot-read-the-trace",
+                                            f"{type(e).__name__}: {e} ({tb[-3].strip() if len(tb) > 2 else ''})", origin=origin))
         # (A) correspondence: first difference on the property's alphabet; failing that, first
         # difference on the state sections (model validation only)
         k1 = k2 = None
